@@ -347,7 +347,7 @@ func (p *PacketIn) MarshalBinary() (data []byte, err error) {
 	n += 1
 	b[n] = p.TableId
 	n += 1
-	binary.BigEndian.PutUint64(b, p.Cookie)
+	binary.BigEndian.PutUint64(b[n:], p.Cookie)
 	n += 8
 	data = append(data, b...)
 
